@@ -220,6 +220,42 @@ def scenarios_c15(ctx, binpath, count):
             if track:
                 sc.append(("cde:%s:long_unicode:no-track:%s" % (res[:4], "/".join(map(str, p))[:50]), ["--cde", "--num-threads", "1", fp], None,
                            {"file": fp, "cde": True, "track": None}))
+        # numeric extremes (values at the edges of the 32 / 64 bit ranges) in the integer fields of the export, with and without the ignore
+        # options; num_choices additionally together with registrations whose assigned course is not among their choices (the penalty of
+        # an unchosen course is num_choices + 1)
+        EXTREME = [2147483647, 2147483648, 4294967295, 4294967296, 9223372036854775807, 18446744073709551615]
+        ints = [p for p in paths_in(doc) if isinstance(_get(doc, p), int) and not isinstance(_get(doc, p), bool) and len(p) <= 7]
+        pri = [p for p in ints if p[-1] in ("num_choices", "min_size", "max_size", "min_choices")]
+        rng.shuffle(ints)
+        ign = ["--ignore-assigned", "--ignore-cancelled"]
+        for j, p in enumerate(pri[:8] + ints[:max(6, count // 12)]):
+            m = copy.deepcopy(doc)
+            cur = m
+            for k in p[:-1]:
+                cur = cur[k]
+            cur[p[-1]] = EXTREME[j % len(EXTREME)]
+            fp = w("c_%04d.json" % n, json.dumps(m))
+            n += 1
+            extra = ign if j % 2 == 0 else []
+            sc.append(("cde:%s:extreme=%d:%s" % (res[:4], EXTREME[j % len(EXTREME)], "/".join(map(str, p))[:60]), base[:1] + extra + base[1:] + [fp], None,
+                       {"file": fp, "cde": True, "track": track, "probe_extra": extra}))
+        for j, v in enumerate(EXTREME + [49999, 50000, 65535]):
+            m = copy.deepcopy(doc)
+            for part in m["event"]["parts"].values():
+                for td in part.get("tracks", {}).values():
+                    td["num_choices"] = v
+            # every second assigned registration loses its assigned course from its choices
+            k = 0
+            for reg in m["registrations"].values():
+                for td in (reg.get("tracks") or {}).values():
+                    if isinstance(td, dict) and td.get("course_id") is not None and isinstance(td.get("choices"), list):
+                        k += 1
+                        if k % 2 == 0:
+                            td["choices"] = [c for c in td["choices"] if c != td["course_id"]]
+            fp = w("c_%04d.json" % n, json.dumps(m))
+            n += 1
+            sc.append(("cde:%s:num_choices=%d+unchosen" % (res[:4], v), base[:1] + ign + base[1:] + [fp], None,
+                       {"file": fp, "cde": True, "track": track, "probe_extra": ign}))
         for ver in ([1, 0], [6, 99], [20, 0], [7], "7.0", [7, 0, 1]):
             m = copy.deepcopy(doc)
             m["EVENT_SCHEMA_VERSION"] = ver
@@ -256,6 +292,7 @@ def run_scenarios(ctx, binpath, scenarios, jobs=16):
                 pa.append("--cde")
                 if info.get("track"):
                     pa += ["--track", info["track"]]
+                pa += info.get("probe_extra", [])
             pr = probe(pa)
             fl = default_flags()
             if pr.get("library_panic") or pr.get("probe_failed"):
